@@ -243,7 +243,7 @@ def bitOr (bits : Nat) (unsigned : Bool) (a c : Int) : Int :=
   wrapTo bits unsigned (Int.ofNat (Nat.lor (a % m).toNat (c % m).toNat))
 
 /-- evaluateBitflagExpr in width-typed arithmetic. `none`: error. (Negative shift counts are errors
-    since the fix.) -/
+    since the fix; so are left shifts that lose bits or reach the sign bit.) -/
 def evalExpr (bits : Nat) (unsigned : Bool) (opts : List EnumOption) : Expr → Option Int
   | .ident name =>
     match opts.find? (fun o => o.name == name) with
@@ -261,9 +261,12 @@ def evalExpr (bits : Nat) (unsigned : Bool) (opts : List EnumOption) : Expr → 
       | .amp => some (bitAnd bits unsigned a c)
       | .vbar => some (bitOr bits unsigned a c)
       | .dblLeft =>
+        -- `shifted := lhs << rhs`; accepted only if shifting back gives lhs again and the sign is kept
         if c < 0 then none
-        else if c.toNat ≥ bits then some 0
-        else some (wrapTo bits unsigned (a * (2 ^ c.toNat : Nat)))
+        else
+          let shifted : Int := if c.toNat ≥ bits then 0 else wrapTo bits unsigned (a * (2 ^ c.toNat : Nat))
+          let back : Int := if c.toNat ≥ bits then (if shifted < 0 then -1 else 0) else shifted / (2 ^ c.toNat : Nat)
+          if back == a && (unsigned || decide (shifted < 0) == decide (a < 0)) then some shifted else none
       | .dblRight =>
         if c < 0 then none
         else if c.toNat ≥ bits then some (if a < 0 then -1 else 0)
